@@ -57,6 +57,8 @@ Proof.
       match fs path with
       | None => ([Open path false; Send (r_notfound cfg); Close], Done)
       | Some content =>
+          if term_overflows subst content
+          then ([Open path true; Send (r_ok cfg); Send (content_type fname'); Send s_crlf], Crash (Overflow 8)) else
           match body_effects cfg params subst (chunks (S (length content)) chunk_len content) with
           | None => ([Open path true; Send (r_ok cfg); Send (content_type fname'); Send s_crlf], Crash (Overflow 6))
           | Some body =>
@@ -73,7 +75,7 @@ Proof.
     destruct (Zlength (httpDir cfg) + Zlength fname' + 1 >? C20_FULLFNAME_SIZE); [simpl; tauto|].
     destruct (fs (httpDir cfg ++ fname')) as [content|] eqn:Efs.
     2:{ simpl. intros [H|[H|[H|[]]]]; discriminate. }
-    destruct (body_effects cfg params (ends_with_vnc fname') (chunks (S (length content)) chunk_len content)) as [body|] eqn:Eb.
+    rewrite term_fits; destruct (body_effects cfg params (ends_with_vnc fname') (chunks (S (length content)) chunk_len content)) as [body|] eqn:Eb.
     2:{ simpl. intros _ H; discriminate. }
     simpl fst. simpl snd. intros Hin _.
     assert (Hp : p = httpDir cfg ++ fname').
